@@ -19,7 +19,7 @@ from __future__ import annotations
 import itertools
 
 from .core import AnalysisError
-from .objmodel import ClassModel, new_parser_state
+from .objmodel import ClassModel, new_parser_state, open_checkpoints
 from .ordabs import ModelRaise, Obj
 from .repo import Repo
 
@@ -33,7 +33,7 @@ class Oracle:
         self.name, self.script, self.log = name, list(script), log
 
     def parse(self, state: Obj, pairs: list) -> bool:
-        self.log.append((self.name, state.pos, bool(state.__dict__.get("_suppress_failures")), len(state.__dict__.get("_pos_history", []))))
+        self.log.append((self.name, state.pos, bool(state.__dict__.get("_suppress_failures")), open_checkpoints(state)))
         ok = self.script.pop(0) if self.script else False
         if self.name == "SKIP":
             # the fused rule is a repetition: it always succeeds, consuming what it matched (possibly nothing)
@@ -138,7 +138,7 @@ def check_trivia(repo: Repo, where: str) -> tuple[int, list[tuple[str, str]]]:  
                         bad.append(("a trivia rule is attempted without failure suppression", f"{desc}: {[a[0] for a in first_log if not a[2]]}"))
                     if state.__dict__.get("_suppress_failures"):
                         bad.append(("failure suppression stays on after parse_trivia", desc))
-                    if len(state.__dict__.get("_pos_history", [])) != 0:
+                    if open_checkpoints(state) != 0:
                         bad.append(("a checkpoint taken by parse_trivia is left open", desc))
                     want_second, _ = reference(defined, {k: [False] for k in defined})
                     if [a[0] for a in second_log] != want_second:
